@@ -25,6 +25,8 @@ type caseC03 struct {
 	Kind    string  `json:"kind"` // generator class, informational
 	Nil     bool    `json:"nilin,omitempty"`
 	ZeroRcv bool    `json:"zero_receiver,omitempty"` // the receiver is a zero-value struct (new(Element)) instead of Prior
+	Pre     int     `json:"pre,omitempty"`           // the input is a sub-slice starting at this offset of a larger buffer
+	Pad     int     `json:"pad,omitempty"`           // this many zero bytes are appended to the input (very long inputs)
 }
 
 var (
@@ -256,6 +258,9 @@ var c03 = gen.Register(&gen.Check[caseC03]{
 			c.Nil = rapid.Bool().Draw(t, "nil")
 		}
 		c.ZeroRcv = gen.Chance(t, "zeroRcv", 1, 6)
+		if len(data) > 0 && c.Decoder != "coordinates" && gen.Chance(t, "interior", 1, 3) {
+			c.Pre = rapid.IntRange(1, 15).Draw(t, "pre")
+		}
 		return c
 	},
 	Fixed: func() []caseC03 {
@@ -274,6 +279,19 @@ var c03 = gen.Register(&gen.Check[caseC03]{
 				c.Text = c.Data
 			}
 			out = append(out, c)
+		}
+		// very long inputs whose length is congruent to a valid length modulo 2^8 / 2^16 (length fields that get truncated)
+		for _, dec := range []string{"decode", "unmarshal", "hex"} {
+			for _, head := range [][]byte{{0}, ref.Compress(g), ref.Uncompressed(g)} {
+				for _, m := range []int{256, 65536, 131072} {
+					c := caseC03{Data: hex.EncodeToString(head), Decoder: dec, Prior: prior, Kind: "length", Pad: m}
+					if dec == "hex" {
+						c.Text = hex.EncodeToString(append(append([]byte{}, head...), make([]byte, m)...))
+						c.Pad = 0
+					}
+					out = append(out, c)
+				}
+			}
 		}
 		for _, dec := range []string{"decode", "hex", "unmarshal"} {
 			c := caseC03{Data: "00", Decoder: dec, Prior: prior, Kind: "identity", ZeroRcv: true}
@@ -328,6 +346,14 @@ func c03Once(c caseC03, o *gen.Obs) error {
 		return nil
 	}
 	data := gen.HexBytes(c.Data)
+	if c.Pad > 0 {
+		data = append(data, make([]byte, c.Pad)...)
+		o.Class("very-long-input")
+	}
+	if c.Pre > 0 && c.Decoder != "hex" {
+		data, _ = gen.Place(data, gen.Layout{Pre: c.Pre, Post: 3})
+		o.Class("input-interior")
+	}
 	if c.Nil {
 		data = nil
 	}
